@@ -176,6 +176,10 @@ Proof.
   rewrite ensure_wr by (try apply T_sec_nobs; exact H). rewrite app_nil_r. reflexivity.
 Qed.
 
+Theorem escape_section_written sp k :
+  pb_no_bs_before ["\"%char] k = true -> escape_path_section k (sep_char sp) = wr (sec_set sp) false k.
+Proof. intros H. apply escape_section_wr. rewrite okb_no_bs_before. exact H. Qed.
+
 Lemma sec_set_hard sp c : mem_ascii c (pb_hard (sep_char sp)) = true -> mem_ascii c (sec_set sp) = true.
 Proof. intros H. unfold sec_set. rewrite mem_rev. apply T_sec_hard. exact H. Qed.
 
